@@ -352,21 +352,61 @@ def _retry_case(ctx, cfg, desc, clock, ref):
     step = 1 + ch.draw(max(1, ref["steps"]), "retry_fail_step")
     src = _src()
     seed = desc["rng_seed"]
+    variant = ("same-path", "relative-name-other-directory", "after-a-kill-inside-the-writer")[ch.draw(3, "retry_variant")]
+    ctx.describe["retry_variant"] = variant
+    if variant == "after-a-kill-inside-the-writer":
+        # run 1 is KILLED inside a staged write (what it leaves next to the output stays there);
+        # run 2, another process, stages into the same directory under the same name
+        import shutil
+        import tempfile
+
+        d = tempfile.mkdtemp(prefix="c17kill-")
+        try:
+            K = ref["K"]
+            f1 = {"kind": "torn", "mode": "die", "step": None, "write_call": 1 + ch.draw(max(1, 5 * K), "kill_k"), "tear": ch.draw(14000, "kill_line") % 3, "sector": 3}
+            r1 = crashsim.fault_run(cfg, seed, clock, src, f1, outname=ref["outname"], compute_kw=ref["compute_kw"], workdir=d, keep_dir=True)
+            left = sorted(os.listdir(d))
+            r2 = crashsim.fault_run(cfg, seed, clock, src, None, outname=ref["outname"], compute_kw=ref["compute_kw"], workdir=d, keep_dir=True, check_boundaries=True)
+        finally:
+            shutil.rmtree(d, ignore_errors=True)
+        rep2 = r2["report"]
+        ctx.steps += rep2.get("steps", 0)
+        ctx.log(f"case retry/{variant} first={r1['report']['status'][:20]} left={left} second={rep2['status'][:40]} k2={rep2['k_final']} mismatch={rep2.get('boundary_mismatch')} absent={rep2.get('snap_absent')}")
+        if r1["report"]["status"] == "died":
+            ctx.faults["kill_then_rerun"] += 1
+            ctx.nontrivial = True
+        if rep2["status"] != "returned":
+            ctx.violate("c17.retry_fails", f"after a staged run was killed inside a write (leaving {left}), a second staged run into the same directory raised {rep2['status']}", "retry:kill")
+        elif rep2.get("snap_absent"):
+            ctx.violate("c17.retry_boundary_content", f"after a staged run was killed inside a write, a second staged run into the same directory: no file after its stage boundary {rep2['snap_absent'][0]}", "retry:kill")
+        elif rep2.get("boundary_mismatch"):
+            ctx.violate("c17.retry_boundary_content", f"after a staged run was killed inside a write, a second staged run into the same directory: after its stage boundary {rep2['boundary_mismatch'][0]} the file is not its table: {rep2['boundary_mismatch'][1]}", "retry:kill")
+        return
 
     def body():
         import tempfile, shutil
 
         d = tempfile.mkdtemp(prefix="c17retry-")
         try:
-            out = os.path.join(d, ref["outname"])
             os.mkdir(os.path.join(d, "side"))
             cwd = os.getcwd()
-            os.chdir(d)
+            if variant == "relative-name-other-directory":
+                # the driver changes directory between runs and gives the same RELATIVE name to each
+                dA, dB = os.path.join(d, "runA"), os.path.join(d, "runB")
+                os.mkdir(dA)
+                os.mkdir(dB)
+                name = ref["outname"]
+                out1, out2, given1, given2 = os.path.join(dA, name), os.path.join(dB, name), name, name
+            else:
+                dA = dB = d
+                out1 = out2 = given1 = given2 = os.path.join(d, ref["outname"])
             try:
-                st1, _, tr1 = crashsim._compute_call(cfg, seed, clock, out, True,
-                                                     lambda box: crashsim.StageTracer(src, box, out, fault={"kind": "raise", "step": step}), ref["compute_kw"])
-                st2, t2, tr2 = crashsim._compute_call(cfg, seed, clock, out, True,
-                                                      lambda box: crashsim.StageTracer(src, box, out, snapshot=True, side_dir=os.path.join(d, "side")), ref["compute_kw"])
+                os.chdir(dA)
+                st1, _, tr1 = crashsim._compute_call(cfg, seed, clock, given1, True,
+                                                     lambda box: crashsim.StageTracer(src, box, out1, fault={"kind": "raise", "step": step}), ref["compute_kw"])
+                os.chdir(dB)
+                st2, t2, tr2 = crashsim._compute_call(cfg, seed, clock, given2, True,
+                                                      lambda box: crashsim.StageTracer(src, box, out2, snapshot=True, side_dir=os.path.join(d, "side")), ref["compute_kw"])
             finally:
                 os.chdir(cwd)
             bad = None
@@ -383,7 +423,7 @@ def _retry_case(ctx, cfg, desc, clock, ref):
 
     rep = core.in_fork(body)
     ctx.steps += rep["steps"]
-    ctx.log(f"case retry fail_step={step} first={rep['st1'][:30]} fired={bool(rep['fired'])} second={rep['st2'][:30]} k2={rep['k2']} bad={rep['bad']}")
+    ctx.log(f"case retry/{variant} fail_step={step} first={rep['st1'][:30]} fired={bool(rep['fired'])} second={rep['st2'][:30]} k2={rep['k2']} bad={rep['bad']}")
     if not rep["fired"]:
         ctx.probes["fault_step_beyond_run"] += 1
     else:
@@ -523,7 +563,7 @@ def _config_task_body(args):
         for i in range(8 if tier == "quick" else 24):  # torn write (half the bytes, then EIO or death) at a seeded write call
             cases.append([8, rnd.draw(5 * max(1, K), "torn_call"), rnd.draw(4, "torn_mode"), rnd.draw(3, "tear"), rnd.draw(64, "sector")])
         for i in range(3 if tier == "quick" else 6):  # failed run, then a retry in the same process
-            cases.append([7, rnd.draw(10**6, "retry_step")])
+            cases.append([7, rnd.draw(10**6, "retry_step"), i % 3, rnd.draw(64, "kill_k"), rnd.draw(14000, "kill_line")])
         for i in range(4 if tier == "quick" else 8):  # concurrent staged runs, seeded interleavings
             cases.append([5] + [rnd.draw(6, "c") for _ in range(240)])
         for cv in cases:
